@@ -196,6 +196,8 @@ class RelEval:
             return self.field(cur, name)
         if k == "Attribute":
             kind, owner = self.resolve(t[1], cur, env)
+            if kind == "null-nav":
+                return ("null-nav", None)
             if kind != "entity":
                 return ("scalar", UNDEF)
             if owner is None:
